@@ -17,8 +17,8 @@
       - [calm_heal]      after ttl / (nticks * step) + 3 healthy rounds the fleet is healed. *)
 From stdpp Require Import gmap list numbers sorting.
 From Coq Require Import ZifyN ZifyNat ZifyBool Lia.
-From Drummer.Model Require Import DB Sched Fleet FleetRun.
-From Drummer.Proofs Require Import DBProofs DBViewProofs DBTimeProofs SchedProofs FleetProofs FleetLiveProofs.
+From Drummer.Model Require Import DB Sched Fleet FleetRun MailboxSpec.
+From Drummer.Proofs Require Import DBProofs DBViewProofs DBTimeProofs SchedProofs MailboxProofs FleetProofs FleetLiveProofs.
 Local Open Scope N_scope.
 Notation hist_of := Fleet.hist_of.
 
@@ -834,5 +834,154 @@ Proof.
     exists st2. split; [done|]. split; [done|]. split; [|split; [congruence|split; congruence]].
     rewrite Hd2, Hd1. unfold set_tick. cbn [d_tick d_deadline d_failed d_shards d_kv d_view d_kill d_hosts d_info d_requests d_outgoing].
     f_equal. rewrite Nat2N.inj_succ, N.mul_succ_l. lia.
+Qed.
+
+(** * the leader schedules *)
+(* every NodeHost has reported at [t], persisted logs included, and [t] is at most ttl ago *)
+Definition fresh_hosts (st : fstate) (t : N) : Prop :=
+  d_tick (f_db st) - t ≤ p_ttl P ∧
+  ∀ a fh, f_hosts st !! a = Some fh →
+    ∃ h, d_hosts (f_db st) !! a = Some h ∧ h_tick h = t ∧ ∀ k, is_Some (fh_reps fh !! k) → k ∈ h_plog h.
+
+Lemma ready_entry st t c :
+  Calm st → fresh_hosts st t → c ∈ entries (ctx_of_db (f_db st)) →
+  let C := ctx_of_db (f_db st) in
+  ∃ h sd, f_hist st !! s_id c = Some h ∧ d_view (f_db st) !! s_id c = Some c ∧ s_cci c = cur_version h ∧
+    c_defs C !! s_id c = Some sd ∧ sd_app sd ≠ 0 ∧
+    (∀ n, n ∈ mvals (s_reps c) → r_id n ≠ 0 ∧ r_addr n ≠ 0 ∧ r_shard n = s_id c ∧ cur_members h !! r_id n = Some (r_addr n)) ∧
+    restore_set P C c = sr_failed P C c ∧ repair_action P C c = ANone.
+Proof.
+  intros HC [Hgap Hsp] Hc C. pose proof (cm_inv _ HC) as HI.
+  destruct (view_entry_facts (f_db st) (f_hist st) c (li_view _ _ _ _ _ HI) Hc) as (h & Hh & Hvc & _ & _).
+  destruct (cm_members _ HC _ _ Hh) as (c' & Hc' & Hcc & Hmem). assert (c' = c) as -> by congruence.
+  destruct (calm_view st _ h c HI Hh Hvc Hcc) as (HM & _ & Hids).
+  destruct (cm_viewdef _ HC (s_id c)) as [[sd Hsd] _]; [by eexists|].
+  destruct (cm_defined _ HC _ _ Hsd) as (_ & _ & Happ).
+  assert (Hmv : ∀ n, n ∈ mvals (s_reps c) → r_id n ≠ 0 ∧ r_addr n ≠ 0 ∧ r_shard n = s_id c ∧ cur_members h !! r_id n = Some (r_addr n) ∧
+             ∃ fh lr, f_hosts st !! r_addr n = Some fh ∧ fh_reps fh !! (s_id c, r_id n) = Some lr).
+  { intros n Hn. apply mvals_elem in Hn as [rid Hn]. destruct (Hids rid n Hn) as [-> Hsh].
+    assert (Hm : cur_members h !! r_id n = Some (r_addr n)) by (rewrite <- HM, lookup_fmap, Hn; done).
+    destruct (Hmem _ _ Hm) as (? & ? & ?). done. }
+  assert (Hwait : sr_wait P C c = []).
+  { apply elem_of_nil_inv. intros n Hn. apply elem_sr_wait in Hn as [Hn Hw]. apply mvals_elem in Hn as [rid Hn].
+    unfold replica_waiting in Hw. apply andb_true_iff in Hw as [Hz _]. apply N.eqb_eq in Hz.
+    by apply (cm_stamped _ HC _ _ _ _ Hvc Hn). }
+  assert (Hrest : restorable P C c = sr_failed P C c).
+  { unfold restorable. apply filter_all. intros n Hn. apply elem_sr_failed in Hn as [Hn _].
+    destruct (Hmv n Hn) as (_ & _ & Hsh & _ & fh & lr & Hfh & Hk).
+    destruct (Hsp _ _ Hfh) as (hs & Hhs & Htk & Hpl).
+    unfold restorable_rep. unfold C, ctx_of_db. cbn [c_hosts c_tick]. rewrite Hhs.
+    apply andb_true_iff. split.
+    - apply host_available_iff. unfold now. cbn [c_tick]. rewrite Htk. exact Hgap.
+    - unfold host_has_log. apply bool_decide_eq_true. rewrite Hsh. apply Hpl. by eexists. }
+  assert (Hrs : restore_set P C c = sr_failed P C c).
+  { unfold restore_set. rewrite Hrest. destruct (need_restore P C c); [|done].
+    case_bool_decide as Hq; [done|]. destruct (sr_failed P C c) as [|n0 l0] eqn:Ef; [done|]. exfalso. apply Hq.
+    rewrite sr_quorum_eq. pose proof (sr_partition P C c) as Hp. unfold n_wait in Hp. rewrite Hwait in Hp. cbn [length] in Hp.
+    unfold n_failed in Hp. rewrite Ef in Hp. rewrite <- Ef in Hp. unfold n_ok in *. unfold quorum_of.
+    assert (0 < size (s_reps c))%nat by (rewrite Ef in Hp; cbn [length] in Hp; lia).
+    pose proof (Nat.div_lt (size (s_reps c)) 2 ltac:(lia) ltac:(lia)). lia. }
+  exists h, sd. split; [done|]. split; [done|]. split; [done|]. split; [done|]. split; [done|].
+  split. { intros n Hn. destruct (Hmv n Hn) as (? & ? & ? & ? & _). done. }
+  split; [done|].
+  unfold repair_action. destruct (sr_failed P C c) as [|n0 l0] eqn:Ef.
+  - assert (in_repair P C c = false) as ->; [|done]. unfold in_repair, n_failed, n_wait. rewrite Ef, Hwait. done.
+  - assert (is_restored P C c = true) as ->; [|by rewrite orb_true_r].
+    apply has_restore_restored; [done|]. unfold has_restore. rewrite Hrs, Ef. done.
+Qed.
+
+Lemma calm_schedule st t o st' :
+  Calm st → fresh_hosts st t → fstep P st (ESchedule o) = FOk st' →
+  ∃ b, o = OBatch b ∧ Calm st' ∧
+    f_hosts st' = f_hosts st ∧ f_hist st' = f_hist st ∧
+    f_db st' = set_requests (f_db st) (put_requests (d_requests (f_db st)) b) ∧
+    (∀ q, q ∈ b → good_restore (f_hist st) q) ∧
+    (∀ s c rid n, d_view (f_db st) !! s = Some c → s_reps c !! rid = Some n →
+       replica_failed P n (d_tick (f_db st)) = true →
+       ∃ q, q ∈ b ∧ is_restore q = true ∧ q_shard q = s ∧ q_inst q = rid ∧ q_raft q = r_addr n).
+Proof.
+  intros HC Hfr E. pose proof (cm_inv _ HC) as HI. set (C := ctx_of_db (f_db st)).
+  cbn [fstep] in E. destruct (allowed P (ctx_of_db (f_db st)) o) eqn:Hal; [|done]. fold C in Hal.
+  assert (Hkills : kills C = []) by (unfold kills, C, ctx_of_db; cbn [c_kill]; by rewrite (cm_kill _ HC)).
+  (* no error, no panic *)
+  assert (Hb : ∃ b, o = OBatch b).
+  { destruct o as [b| |]; [by exists b| |]; exfalso.
+    - apply sched_error_inv in Hal as (c & Hc & He). destruct (ready_entry st t c HC Hfr Hc) as (_ & _ & _ & _ & _ & _ & _ & _ & _ & Hact).
+      fold C in Hact. unfold err_entry in He. by rewrite Hact in He.
+    - cbn [allowed] in Hal. apply orb_true_iff in Hal as [Hal|Hal]; [apply orb_true_iff in Hal as [Hal|Hal]|].
+      + unfold restore_crash in Hal. apply existsb_exists in Hal as (c & Hc%elem_of_list_In & Hx).
+        destruct (ready_entry st t c HC Hfr Hc) as (_ & sd & _ & _ & _ & Hsd & _). fold C in Hsd.
+        apply andb_true_iff in Hx as [_ Hx]. apply bool_decide_eq_true in Hx. congruence.
+      + apply existsb_exists in Hal as (c & Hc%elem_of_list_In & Hx).
+        destruct (ready_entry st t c HC Hfr Hc) as (_ & _ & _ & _ & _ & _ & _ & _ & _ & Hact). fold C in Hact.
+        unfold crash_entry in Hx. by rewrite Hact in Hx.
+      + apply andb_true_iff in Hal as [_ Hal]. unfold may_invalid in Hal. rewrite Hkills in Hal. cbn [existsb orb] in Hal.
+        apply existsb_exists in Hal as (c & Hc%elem_of_list_In & Hx).
+        destruct (ready_entry st t c HC Hfr Hc) as (h & sd & _ & _ & _ & Hsd & Happ & Hmv & Hrs & Hact). fold C in Hsd, Hrs, Hact.
+        unfold entry_may_invalid in Hx. rewrite Hsd, Hact in Hx. destruct (has_restore P C c); [|done].
+        unfold create_may_invalid in Hx. apply orb_true_iff in Hx as [Hx|Hx]; [apply orb_true_iff in Hx as [Hx|Hx]|].
+        * apply N.eqb_eq in Hx. done.
+        * apply existsb_exists in Hx as (m & Hm%elem_of_list_In & Hz). unfold members_of in Hm.
+          apply elem_of_list_fmap in Hm as (n & -> & Hn). destruct (Hmv n Hn) as (H1 & H2 & _). cbn [fst snd] in Hz.
+          apply orb_true_iff in Hz as [Hz|Hz]; apply N.eqb_eq in Hz; done.
+        * apply existsb_exists in Hx as (n & Hn%elem_of_list_In & Hz). rewrite Hrs in Hn. apply elem_sr_failed in Hn as [Hn _].
+          destruct (Hmv n Hn) as (H1 & H2 & _). apply orb_true_iff in Hz as [Hz|Hz]; apply N.eqb_eq in Hz; done. }
+  destruct Hb as [b ->]. exists b. split; [done|].
+  (* the batch: restore requests for current members *)
+  assert (Hgood : ∀ q, q ∈ b → good_restore (f_hist st) q).
+  { intros q Hq. destruct (batch_request_cases P C b q Hal Hq) as [Hk|(_ & c & qs & Hc & Hs & Hin & Hg & _)].
+    { rewrite Hkills in Hk. by apply elem_of_nil in Hk. }
+    destruct (ready_entry st t c HC Hfr Hc) as (h & sd & Hh & _ & _ & Hsd & _ & Hmv & Hrs & Hact). fold C in Hsd, Hrs, Hact.
+    apply group_allowed_inv in Hg as [(_ & sd' & _ & Hok)|(_ & Hcases)].
+    2:{ destruct Hcases as [[_ ->]|[(Ha & _)|[(sd' & Ha & _)|(Ha & _)]]]; [by apply elem_of_nil in Hin|congruence..]. }
+    destruct (restore_group_inv P C c _ qs q Hok Hin) as ((Hcr & Hsh & _ & _ & _ & _ & Hj & Hre & _) & n & Hn & Hi & _).
+    rewrite Hrs in Hn. apply elem_sr_failed in Hn as [Hn _]. destruct (Hmv n Hn) as (_ & _ & _ & Hm).
+    split; [unfold is_restore; by rewrite Hcr, Hre|]. split; [done|]. exists h, (r_addr n). rewrite Hsh, Hi. done. }
+  assert (Hadds : add_ids b = []).
+  { unfold add_ids. assert (filter (λ q, is_add q = true) b = []) as ->; [|done].
+    apply elem_of_nil_inv. intros q Hq. apply elem_of_list_filter in Hq as [Hadd Hq].
+    destruct (Hgood q Hq) as (Hres & _). unfold is_restore, is_create in Hres. unfold is_add in Hadd. by destruct (q_type q). }
+  assert (Hfresh : fresh_ok st (ESchedule (OBatch b))).
+  { cbn. rewrite Hadds. split; [constructor|]. intros x Hx. by apply elem_of_nil in Hx. }
+  assert (E' : fstep P st (ESchedule (OBatch b)) = FOk st') by (cbn [fstep]; fold C; by rewrite Hal).
+  pose proof (step_inv P st _ st' HI Hfresh E') as HI'.
+  pose proof (fstep_time_ok P st _ st' E' (cm_timeok _ HC)) as Hto.
+  assert (Hst' : f_hosts st' = f_hosts st ∧ f_hist st' = f_hist st ∧
+                 f_db st' = set_requests (f_db st) (put_requests (d_requests (f_db st)) b)).
+  { destruct b as [|q0 b0].
+    - injection E as <-. split; [done|]. split; [done|]. destruct st as [d ? ? ?]. cbn. by destruct d.
+    - rewrite (schedule_db P st (q0 :: b0) HI Hal) in E by (intros x Hx; rewrite Hadds in Hx; by apply elem_of_nil in Hx).
+      injection E as <-. done. }
+  destruct Hst' as (Eh & Ehi & Ed).
+  split.
+  { split; try rewrite Ed; try rewrite Eh; try rewrite Ehi; cbn [set_requests d_tick d_shards d_view d_kill].
+    - exact HI'.
+    - exact Hto.
+    - apply (cm_time _ HC).
+    - apply (cm_defined _ HC).
+    - apply (cm_viewdef _ HC).
+    - apply (cm_hosts _ HC).
+    - apply (cm_kill _ HC).
+    - intros q Hq. unfold boxed in Hq. rewrite Ed, Eh in Hq.
+      destruct Hq as [(a & qs & Hl & Hin)|[Hq|[Hq|Hq]]].
+      + cbn [d_requests set_requests] in Hl. destruct (put_requests_in _ _ _ _ Hl) as [Ho|Ho].
+        * apply (cm_boxes _ HC). left. eauto.
+        * apply Hgood. by apply Ho.
+      + apply (cm_boxes _ HC). right; left. exact Hq.
+      + apply (cm_boxes _ HC). right; right; left. exact Hq.
+      + by apply elem_of_nil in Hq.
+    - apply (cm_members _ HC).
+    - apply (cm_stamped _ HC).
+    - apply (cm_home _ HC).
+    - apply (cm_nostray _ HC). }
+  split; [done|]. split; [done|]. split; [done|]. split; [exact Hgood|].
+  intros s c rid n Hc Hn Hfail.
+  assert (Hce : c ∈ entries C) by (unfold entries, C, ctx_of_db; cbn [c_view]; apply mvals_elem; by exists s).
+  destruct (ready_entry st t c HC Hfr Hce) as (h & sd & Hh & Hvc & _ & _ & _ & _ & Hrs & _). fold C in Hrs.
+  destruct (li_view _ _ _ _ _ HI s c Hc) as (Hid & _ & Hids). destruct (Hids rid n Hn) as [Hrid _].
+  assert (Hnf : n ∈ restore_set P C c).
+  { rewrite Hrs. apply elem_sr_failed. split; [apply mvals_elem; by exists rid|]. exact Hfail. }
+  destruct (sched_restore_complete P C b c n Hal Hce Hnf) as (q & Hq & Hres & Hs & Hi & Hr).
+  exists q. split; [done|]. split; [done|]. split; [congruence|]. split; [congruence|done].
 Qed.
 End Heal.
